@@ -257,4 +257,19 @@ theorem no_leak (i : Nat) (sys sys' : Sys) (sched sched' : List (Nat × List Nat
     (hi : sys i = sys' i) (hp : proj i sched = proj i sched') : run sys sched i = run sys' sched' i := by
   rw [locality, locality, hi, hp]
 
+/-! ### non-vacuity: a concrete exchange -/
+
+def demoCfg : Cfg := { deviceId := cs!"a123bc", deviceKey := cs!"18" }
+def demoLogin : List Nat := [0xfe, 0xf0, 0x0c, 0x00, 0x02, 0x32, 0xa1, 0x00, 0x11, 0x22, 0x33, 0x44]
+example : WFcfg demoCfg := by unfold WFcfg; decide +kernel
+/-- turn on for 30 minutes at clock 1 700 000 000: exactly two frames; the second one carries the session id of THIS login reply
+    (11 22 33 44), this clock reading (little-endian) and the configured device id, read back from the bytes -/
+example : (match runProg (prog demoCfg 1700000000 0 (.controlDevice true 30)) [demoLogin, [0]] with
+    | ([_, f2], .ok _) => carries f2 [0x11, 0x22, 0x33, 0x44] (le32 1700000000) [0xa1, 0x23, 0xbc]
+    | _ => false) = true := by decide +kernel
+/-- and with another login reply the same operation carries the other session id: nothing is remembered -/
+example : (match runProg (prog demoCfg 1700000000 0 (.controlDevice true 30)) [demoLogin.take 8 ++ [9, 8, 7, 6], [0]] with
+    | ([_, f2], .ok _) => carries f2 [9, 8, 7, 6] (le32 1700000000) [0xa1, 0x23, 0xbc]
+    | _ => false) = true := by decide +kernel
+
 end Props.C03
